@@ -698,10 +698,9 @@ class DMSAngle(object):
         :return: HP Notation (DDD.MMSSSS)
         :rtype: float
         """
-        if self.positive:
-            return self.degree + (self.minute / 100) + (self.second / 10000)
-        else:
-            return -(self.degree + (self.minute / 100) + (self.second / 10000))
+        # via dec2hp, which rounds the seconds to the places HP Notation holds
+        # and carries 60 seconds / 60 minutes into the next field
+        return dec2hp(self.dec())
 
     def hpa(self):
         """
@@ -900,11 +899,9 @@ class DDMAngle(object):
         :return: HP Notation (DDD.MMSSSS)
         :rtype: float
         """
-        minute_int, second = divmod(self.minute, 1)
-        if self.positive:
-            return self.degree + (minute_int / 100) + (second * 0.006)
-        else:
-            return -(self.degree + (minute_int / 100) + (second * 0.006))
+        # via dec2hp, which rounds the seconds to the places HP Notation holds
+        # and carries 60 seconds / 60 minutes into the next field
+        return dec2hp(self.dec())
 
     def hpa(self):
         """
